@@ -121,6 +121,12 @@ func c06Oracle(c c06Case) error {
 		if r%3 == 1 {
 			_, _ = runPipeline(other, opts, r%6 == 1)
 		}
+		if r%3 == 2 {
+			// an earlier call of a different kind: last data delivered together with io.EOF,
+			// text after the dump, scan stopped before the input was drained
+			d := Delivery{EOFWithData: true, Chunk: []int{0, 64}[r%2]}
+			_, _, _ = stack.ScanSnapshot(d.reader(append(append([]byte{}, other...), "\ntrailing text\nmore text\n"...)), discard{}, opts)
+		}
 		again, err := runPipeline(x, opts, r%4 == 1)
 		if err != nil {
 			return err
@@ -163,7 +169,13 @@ func tiedBuckets(d *DumpM) bool {
 var c06Dump = Check[c06Case]{
 	Prop: "C06", Name: "inproc",
 	Gen: func(t *rapid.T) c06Case {
-		return c06Case{D: genAggDump(t, 30), Other: genAggDump(t, 6), Naming: rapid.Bool().Draw(t, "naming")}
+		c := c06Case{D: genAggDump(t, 30), Other: genAggDump(t, 6), Naming: rapid.Bool().Draw(t, "naming")}
+		if len(c.D.Gs) >= 2 && oneIn(t, 4, "duplicateID") {
+			// several dumps logged back to back parse as one snapshot: ids can repeat
+			k := rapid.IntRange(1, len(c.D.Gs)-1).Draw(t, "dupAt")
+			c.D.Gs[k].ID = c.D.Gs[rapid.IntRange(0, k-1).Draw(t, "dupOf")].ID
+		}
+		return c
 	},
 	Oracle: c06Oracle,
 	Obs: func(c c06Case) Obs {
